@@ -72,6 +72,7 @@ class Opts:
     multi_2xx: bool = False         # several of 200/201/202/204 with different bodies, listed in any order
     error_only_ops: bool = False    # some operations document no 2xx and no default response at all (only errors, or nothing)
     component_responses: bool = False  # error responses taken from components.responses through $ref, one entry under several statuses
+    yaml_media: bool = False        # some responses / request bodies declare only YAML media types (application/yaml, application/x-yaml)
     multi_media_resp: bool = False  # a 2xx response with several media types of different python types (Content-Type dispatch)
 
 
@@ -403,7 +404,9 @@ def gen_responses(r: random.Random, o: Opts, schemas: dict) -> dict:
             if c == "204" or r.random() < 0.12:
                 resp[c] = {"description": f"status {c}"}
                 continue
-            if r.random() < 0.85 or not o.text_binary:
+            if o.yaml_media and r.random() < 0.3:
+                content = {r.choice(["application/yaml", "application/x-yaml", "application/vnd.acme+yaml"]): {"schema": gen_body_schema(r, o, schemas)}}
+            elif r.random() < 0.85 or not o.text_binary:
                 content = {"application/json": {"schema": gen_body_schema(r, o, schemas)}}
                 if o.multi_media_resp and r.random() < 0.35:
                     extra = r.choice([("text/plain", {"type": "string"}), ("application/vnd.acme.v2+json", gen_body_schema(r, o, schemas)),
